@@ -63,4 +63,17 @@ theorem sim_run {w : Win} {acc : List Nat} (h : Sim w acc) (hist : List Nat) (hb
     simp only [runU, List.foldl_cons, specRun]
     exact ih (sim_step h (hb q (by simp))) (fun x hx => hb x (by simp [hx]))
 
+/-- `compact` is invisible in the other direction too -/
+theorem Inv.of_compact {w : Win} {S : Nat → Prop} (h : Inv (Replay.compact w) S) : Inv w S :=
+  ⟨fun q h1 h2 => by rw [← compact_bit]; exact h.inWin q h1 h2,
+   fun q h1 h2 => by rw [← compact_bit]; exact h.above q h1 h2,
+   h.le_top⟩
+
+/-- one step of the receive path without the driver's re-tabulation -/
+theorem sim_step_plain {w : Win} {acc : List Nat} (h : Sim w acc) {q : Nat} (hq : q < 2 ^ 63) :
+    Sim (if checkU w q then markU w q else w) (if specAccepts acc q then q :: acc else acc) := by
+  have := sim_step h hq
+  unfold acceptU at this
+  exact ⟨this.inv.of_compact, by have := this.top; rwa [compact_wt] at this⟩
+
 end Replay
